@@ -205,6 +205,12 @@ impl Ctx {
             .insert(u64::from_le_bytes(h[..8].try_into().unwrap()));
     }
 
+    /// distinct non-trivial cases that are distinct by construction (an
+    /// enumeration): counted without storing a key per case
+    pub fn nontrivial_enumerated(&mut self, n: u64) {
+        *self.counters.entry("enumerated_distinct_nontrivial".to_string()).or_insert(0) += n;
+    }
+
     pub fn count(&mut self, k: &str) {
         *self.counters.entry(k.to_string()).or_insert(0) += 1;
     }
